@@ -67,3 +67,12 @@ Theorem C13_restore_voters_joint_roundtrip : forall mi mb li cs c p,
   forall x, In x (c_voters c) <-> In x (cs_voters cs) /\ x <> 0.
 Proof. exact restore_voters_joint_fresh. Qed.
 Print Assumptions C13_restore_voters_joint_roundtrip.
+
+(* Restore, learner half of the round-trip for a non-joint ConfState: the learners of the
+   result are its Learners together with its LearnersNext (empty in the ConfState of a valid
+   non-joint configuration). *)
+Theorem C13_restore_learners_roundtrip : forall mi mb li cs c p,
+  cc_restore (make_tracker mi mb) li cs = inl (c, p) -> cs_voters_outgoing cs = [] ->
+  forall x, In x (c_learners c) <-> (In x (cs_learners cs) \/ In x (cs_learners_next cs)) /\ x <> 0.
+Proof. exact restore_learners_fresh. Qed.
+Print Assumptions C13_restore_learners_roundtrip.
